@@ -166,3 +166,31 @@ Proof.
   - unfold vg_cumulant2. cbv beta iota zeta. ring.
 Qed.
 End VgCumulants.
+
+(* ------------------------------------------------------------------ CGMY: which branch the exponent takes; cumulants (partial) *)
+Lemma Reqb_false' x y : x <> y -> Reqb x y = false.
+Proof. intros H. unfold Reqb. destruct (Req_EM_T x y); [contradiction | reflexivity]. Qed.
+Lemma Reqb_true' x y : x = y -> Reqb x y = true.
+Proof. intros H. unfold Reqb. destruct (Req_EM_T x y); [reflexivity | contradiction]. Qed.
+
+Lemma cgmy_pj_dummies c g m y CG u v u' v' s : cgmy_pj c g m y CG u v s = cgmy_pj c g m y CG u' v' s.
+Proof. unfold cgmy_pj. cbv beta iota zeta. destruct (Reqb y 0); [reflexivity|]. destruct (Reqb y (1 / 1)); reflexivity. Qed.
+
+Lemma cgmy_pj_y0 c g m CG s :
+  cgmy_kappa_pj c g m 0 CG s = - c * (ln (1 + s / g) + ln (1 - s / m)) - c * s * (1 / m - 1 / g).
+Proof. unfold cgmy_kappa_pj, cgmy_pj. cbv beta iota zeta. rewrite Reqb_true' by reflexivity. cbv beta iota zeta. ring. Qed.
+Lemma cgmy_pj_y1 c g m CG s :
+  cgmy_kappa_pj c g m 1 CG s
+  = c * ((g + s) * ln (g + s) - g * ln g + (m - s) * ln (m - s) - m * ln m + s * (ln m - ln g)).
+Proof.
+  unfold cgmy_kappa_pj, cgmy_pj. cbv beta iota zeta. rewrite Reqb_false' by lra. rewrite Reqb_true' by field.
+  cbv beta iota zeta. ring.
+Qed.
+Lemma cgmy_pj_gen c g m y CG s : y <> 0 -> y <> 1 ->
+  cgmy_kappa_pj c g m y CG s
+  = CG * (Rpower (g + s) y - s * y * Rpower g (y - 1) + Rpower (m - s) y + s * y * Rpower m (y - 1) - Rpower g y - Rpower m y).
+Proof.
+  intros H0 H1. unfold cgmy_kappa_pj, cgmy_pj. cbv beta iota zeta. rewrite Reqb_false' by assumption.
+  rewrite Reqb_false' by (intros E; apply H1; rewrite E; field).
+  cbv beta iota zeta. ring.
+Qed.
